@@ -304,32 +304,51 @@ def correspond(res, rng, tier):
   units = []
   dist = {}
 
-  # ---- universe U2 (2 variables x 2 values): all tables (each variable absent / any subset) + odd ones
+  def lists_of(pool, arities):
+    return [(k, tuple(c)) for k in "AO" for n in arities for c in itertools.product(pool, repeat=n)]
+
+  def extra_terms(sp, recipes):
+    """distinct real terms produced by `recipes` that are not representatives of the space"""
+    seen, out = set(), []
+    for r in recipes:
+      c = canon(py_build(r))
+      if c not in sp.reps and c not in seen:
+        seen.add(c)
+        out.append(r)
+    return out
+
+  # ---- universe U2 (2 variables x 2 values): all tables (each variable absent / any subset) + odd ones.
+  # The level-wise closure is over *binary* And/Or (depth 1 in both operand orders, incl. And([a, a]));
+  # lists of 0, 1 and 3 atoms are built and simplified too but do not feed the next level.
   tabs2 = all_tables(U2) + odd_tables(U2)
   sp2 = Space(atoms(U2))
   lvl0 = list(sp2.levels[0])
   b0 = eq_recipes(U2) + [("T",), ("F",)]
-  # depth 1: every list of <= 3 atoms (all orders, repeats) under both connectives
-  d1 = [(k, tuple(c)) for k in "AO" for n in range(0, 4) for c in itertools.product(lvl0, repeat=n)]
+  d1 = lists_of(lvl0, (2,))
   new1 = sp2.close(d1)
+  d1x = lists_of(lvl0, (0, 1, 3))
   d2 = list(sp2.pair_recipes())
   new2 = sp2.close(d2)
-  # a few wider depth-2 recipes (arity 3, mixed kinds)
+  # wider depth-2 recipes (arity 3, mixed kinds), seeded
   pool2 = list(sp2.reps.values())
   d2w = [(rng.choice("AO"), tuple(rng.choice(pool2) for _ in range(3))) for _ in range(400 if not thorough else 4000)]
   d3 = list(sp2.pair_recipes())
   n_d3 = len(d3)
-  if not thorough:
-    d3 = rng.sample(d3, max(1, n_d3 // 10))
+  # caps keep a mutated tree (whose space of distinct terms may explode) within budget
+  n_run = min(n_d3, 1000000) if thorough else min(max(1, n_d3 // 10), 60000)
+  if n_run < n_d3:
+    d3 = rng.sample(d3, n_run)
   new3 = sp2.close(d3)
-  dist["U2"] = {"atoms": len(lvl0), "depth1_recipes": len(d1), "depth2_recipes": len(d2) + len(d2w),
+  x2 = extra_terms(sp2, d1x + d2w)
+  dist["U2"] = {"atoms": len(lvl0), "depth1_recipes": len(d1) + len(d1x), "depth2_recipes": len(d2) + len(d2w),
                 "depth3_recipes_total": n_d3, "depth3_recipes_run": len(d3),
-                "distinct_terms_by_level": [len(l) for l in sp2.levels], "tables": len(tabs2)}
-  build2 = b0 + d1 + d2 + d2w + d3
-  simp2 = lvl0 + new1 + new2 + new3
-  for c in chunks(build2, 8000):
+                "distinct_terms_by_level": [len(l) for l in sp2.levels], "extra_distinct_terms": len(x2),
+                "tables": len(tabs2)}
+  build2 = b0 + d1 + d1x + d2 + d2w + d3
+  simp2 = lvl0 + new1 + new2 + new3 + x2
+  for c in chunks(build2, 4000):
     units.append({"build": c})
-  for c in chunks(simp2, 1500):
+  for c in chunks(simp2, 1000):
     units.append({"simp": c, "tables": tabs2})
 
   # ---- universe U3 (3 variables x 3 values): depth <= 2 exhaustive; tables: all 729 (+odd) on depth <= 1,
@@ -337,43 +356,49 @@ def correspond(res, rng, tier):
   tabs3 = all_tables(U3) + odd_tables(U3)
   sp3 = Space(atoms(U3))
   l30 = list(sp3.levels[0])
-  d31 = [(k, tuple(c)) for k in "AO" for n in range(0, 3) for c in itertools.product(l30, repeat=n)]
+  d31 = lists_of(l30, (2,))
   n31 = sp3.close(d31)
+  d31x = lists_of(l30, (0, 1))
   d32 = list(sp3.pair_recipes())
+  if len(d32) > 60000:
+    d32 = rng.sample(d32, 60000)
   n32 = sp3.close(d32)
   pool3 = list(sp3.reps.values())
-  n_r3 = 3000 if not thorough else 40000
+  n_r3 = 3000 if not thorough else 20000
   d33 = []
   for _ in range(n_r3):
     ar = rng.choice([2, 2, 3])
     d33.append((rng.choice("AO"), tuple(rng.choice(pool3) for _ in range(ar))))
   n33 = sp3.close(d33)
-  build3 = eq_recipes(U3) + d31 + d32 + d33
-  for c in chunks(build3, 8000):
+  build3 = eq_recipes(U3) + d31 + d31x + d32 + d33
+  for c in chunks(build3, 4000):
     units.append({"build": c})
-  for c in chunks(l30 + n31, 40):
+  for c in chunks(l30 + n31, 20):
     units.append({"simp": c, "tables": tabs3})
-  per_chunk = len(tabs3) if thorough else 24
+  per_chunk = len(tabs3) if thorough else 16
   for c in chunks(n32, 250):
     units.append({"simp": c, "tables": tabs3 if thorough else rng.sample(tabs3, per_chunk)})
   for c in chunks(n33, 250):
-    units.append({"simp": c, "tables": rng.sample(tabs3, 24 if not thorough else 120)})
-  dist["U3"] = {"atoms": len(l30), "depth1_recipes": len(d31), "depth2_recipes": len(d32),
+    units.append({"simp": c, "tables": rng.sample(tabs3, 16 if not thorough else 60)})
+  dist["U3"] = {"atoms": len(l30), "depth1_recipes": len(d31) + len(d31x), "depth2_recipes": len(d32),
                 "depth3_random_recipes": len(d33), "distinct_terms_by_level": [len(l) for l in sp3.levels],
                 "tables": len(tabs3), "tables_per_depth2_term": per_chunk}
 
-  # ---- universe UR (values sort above variables): depth <= 2, all tables
+  # ---- universe UR (values sort above variables; also value==value equalities): depth <= 2, all tables
   tabsr = all_tables(UR) + odd_tables(UR)
   spr = Space(atoms(UR, valval=True))
   lr0 = list(spr.levels[0])
-  dr1 = [(k, tuple(c)) for k in "AO" for n in range(0, 3) for c in itertools.product(lr0, repeat=n)]
+  dr1 = lists_of(lr0, (2,))
   nr1 = spr.close(dr1)
+  dr1x = lists_of(lr0, (0, 1))
   dr2 = list(spr.pair_recipes())
+  if len(dr2) > 20000:
+    dr2 = rng.sample(dr2, 20000)
   nr2 = spr.close(dr2)
-  units.append({"build": eq_recipes(UR) + dr1 + dr2})
-  for c in chunks(lr0 + nr1 + nr2, 1500):
+  units.append({"build": eq_recipes(UR) + dr1 + dr1x + dr2})
+  for c in chunks(lr0 + nr1 + nr2, 500):
     units.append({"simp": c, "tables": tabsr})
-  dist["UR"] = {"atoms": len(lr0), "recipes": len(dr1) + len(dr2),
+  dist["UR"] = {"atoms": len(lr0), "recipes": len(dr1) + len(dr1x) + len(dr2),
                 "distinct_terms_by_level": [len(l) for l in spr.levels], "tables": len(tabsr)}
 
   # ---- forced iteration order: _And/_Or over lists, all permutations, incl. value==value equalities
@@ -392,6 +417,7 @@ def correspond(res, rng, tier):
   dist["forced_order_terms"] = len(forced)
 
   gen_s = time.time() - t0
+  dist["prove_stage_s"] = round(t0 - res.t0, 1)
   # ---- run
   nproc = min(16, os.cpu_count() or 1, max(1, len(units)))
   ctx = multiprocessing.get_context("fork")
@@ -409,20 +435,21 @@ def correspond(res, rng, tier):
   # simplified) + (term, table) pairs whose simplification changed the term or raised
   nontrivial_terms = sum(1 for sp in (sp2, sp3, spr) for c in sp.reps if c[:1] in "AO")
   res.cov["distinct_nontrivial"] = nontrivial_terms + tot.get("simp_changed", 0) + tot.get("simp_false", 0) + tot.get("simp_error", 0)
-  res.cov["exhaustive"] = bool(thorough)
+  res.cov["exhaustive"] = bool(thorough and n_run == n_d3)
   res.cov["rule"] = (
       "recipes = trees of public-constructor calls (Eq/And/Or over TRUE/FALSE and names), enumerated level-wise: "
-      "all lists of <=3 (U2) / <=2 (U3, UR) atoms in every order, then all unordered pairs of the distinct real terms "
-      "of the previous levels under And and Or; U2 depth 3 is %s; every recipe is built in both systems and the "
+      "all ordered pairs of atoms, then all unordered pairs of the distinct real terms of the previous levels, under And "
+      "and Or (plus all lists of 0, 1, 3 atoms and seeded arity-3 recipes outside the closure); U2 depth 3 is %s; every recipe is built in both systems and the "
       "canonical texts compared; every distinct real term is simplified against the tables (all 5^2(+3) tables for "
       "U2/UR incl. missing keys; U3: all 9^3(+3) on depth<=1, %s on depth 2) with the model given the children in the "
       "real set-iteration order; plus forced-order _And/_Or-over-list terms in all permutations. distinct_nontrivial = "
       "distinct real terms that are connectives + distinct (term, table) pairs whose result differs from the input "
       "(changed, FALSE or KeyError)" % (
-          "exhaustive" if thorough else "a seeded 10% sample", "all" if thorough else "24 seeded tables per 250-term chunk"))
+          "exhaustive" if thorough else "a seeded 10% sample", "all" if thorough else "16 seeded tables per 250-term chunk"))
   dist["totals"] = tot
   dist["distinct_real_terms"] = distinct_terms
   dist["units"] = len(units)
+  dist["k_run_s"] = round(time.time() - t0 - gen_s, 1)
   dist["generation_s"] = round(gen_s, 1)
   dist["python_hash_randomised"] = os.environ.get("PYTHONHASHSEED", "random")
   res.cov["distribution"] = dist
@@ -657,9 +684,9 @@ def search(res, rng, disagreements, pfail):
   for r in cands[:200]:
     u = univ_of(r)
     report(r, u, all_tables(u, with_missing=False))
-    if len(found) >= 3 or time.time() - t0 > 60:
+    if len(found) >= 2 or time.time() - t0 > 40:
       break
-  if len(found) < 3:
+  if len(found) < 2:
     # neighbourhood: the whole small space, smallest first
     for univ in (U2, UR, U3):
       tabs = all_tables(univ, with_missing=False)
@@ -667,16 +694,16 @@ def search(res, rng, disagreements, pfail):
       small = eq_recipes(univ) + [(k, tuple(c)) for k in "AO" for n in range(0, 3) for c in itertools.product(a, repeat=n)]
       for r in small:
         report(r, univ, tabs)
-        if len(found) >= 3 or time.time() - t0 > 120:
+        if len(found) >= 2 or time.time() - t0 > 80:
           break
-      if len(found) >= 3 or time.time() - t0 > 120:
+      if len(found) >= 2 or time.time() - t0 > 80:
         break
       if univ is U2:
         sp = Space(a)
         sp.close(small)
         for r in sp.pair_recipes():
           report(r, univ, tabs)
-          if len(found) >= 3 or time.time() - t0 > 120:
+          if len(found) >= 2 or time.time() - t0 > 80:
             break
   return found
 
